@@ -75,7 +75,7 @@ def run(ctx):
         entry = {"kind": "eval", "fun": "f0"}
         worlds = []
         # the pinned corpus first
-        for f in sorted(glob.glob(os.path.join(CORPUS, "*.json"))):
+        for f in sorted(glob.glob(os.path.join(CORPUS, "prog*.json"))):
             d = json.load(open(f))
             worlds.append((d["world"], d["signatures"], os.path.basename(f)))
         for i in range(nworlds):
@@ -291,6 +291,28 @@ def run(ctx):
                                                    "could depend on what the process has imported / on addresses of objects" % name,
                                            "input": {"files": dict((k_, v_ % {"pk": pk} if "%(pk)s" in v_ else v_) for k_, v_ in files.items()), "seed0": rmaps["seed0"], name: m}, "kf": None})
                     break
+        # pinned programs given as source text (forms of literals in calls that the pipeline grammar does not have: signed numbers,
+        # unary operators, keyword and starred literals, bytes, displays): every environment reproduces the pinned signatures
+        for f in sorted(glob.glob(os.path.join(CORPUS, "src*.json"))):
+            d = json.load(open(f))
+            sm = "c3src_%s_%d" % (os.path.basename(f)[:-5], os.getpid())
+            for d_ in (base, moved):
+                with open(os.path.join(d_, sm + ".py"), "w") as fh:
+                    fh.write(d["source"])
+            for v in variants:
+                wk = workers[v["name"]]
+                sd = tempfile.mkdtemp(prefix="c3s_", dir=base)
+                wk.call(cmd="store", kind=v.get("store", "memory"), internal_dir=sd + "/i", data_dir=sd + "/d")
+                wk.call(cmd="world", dir=moved if v.get("moved") else base, module=sm, extmod="c3e_fixed")
+                r = wk.call(cmd="run", entry=entry)
+                res.evaluations += 1
+                res.count("pinned_source_programs")
+                got = r["paths"] if r["error"] is None else {"ERROR": json.dumps(r["error"])[:200]}
+                if got != d["signatures"]:
+                    res.violations.append({"what": "pinned corpus entry %s (source text): the implementation no longer reproduces the pinned signatures in environment '%s'" % (
+                        os.path.basename(f), v["name"]), "input": {"source": d["source"], "pinned": d["signatures"], "now": got}, "kf": None})
+                    break
+            res.nontrivial("pinned source " + os.path.basename(f))
         # ... nor a partial reload: the module of a helper is edited (the helper moves to other lines, its body changes) and reloaded
         # with importlib.reload while the module that imported the helper by name (from lib import helper) is not: the signatures are
         # those of a fresh process started on the files as they are now (same source text, same variables)
@@ -367,3 +389,34 @@ def make_corpus(n=12, seed=20260927):
             json.dump({"world": w, "signatures": r["paths"], "note": "pinned from the implementation at repository state %s" % os.popen("git -C /repo log -1 --format=%h").read().strip()},
                       open(os.path.join(CORPUS, "prog%02d.json" % i), "w"), indent=1, sort_keys=True)
     pipeline.close_ref()
+
+
+SOURCES = {
+    "src00": ("import dds\n\n\ndef f(a, b=0):\n    return (a, b)\n\n\ndef g(a, *rest):\n    return (a, rest)\n\n\ndef h(x, scale=-1.5, shift=+2):\n    return (x, scale, shift)\n\n\n"
+              "def f0():\n    dds.keep('/c/neg', f, -3)\n    dds.keep('/c/pos', f, +3)\n    dds.keep('/c/plain', f, 3, b=-1)\n    dds.keep('/c/star', g, 1, -2, 3)\n"
+              "    dds.keep('/c/kw', f, a=2, b=-0.5)\n    dds.keep('/c/dflt', h, 4)\n    dds.keep('/c/str', f, 'x', b=None)\n    dds.keep('/c/not', f, not True)\n"
+              "    dds.keep('/c/inv', f, ~1)\n    dds.keep('/c/tuple', f, (1, -2))\n    dds.keep('/c/negfloat', f, -0.0, b=-1e300)\n"
+              "    dds.keep('/c/big', f, -10 ** 3, b=2 ** 70)\n    return 'ok'\n"),
+}
+
+
+def make_corpus_sources():
+    """(re)creates the source-text entries of the pinned corpus from the implementation as it is now - run by hand, never by a check"""
+    common.import_dds()
+    import tempfile
+    for name, src in sorted(SOURCES.items()):
+        d = tempfile.mkdtemp(prefix="c3pin_")
+        with open(os.path.join(d, "c3pin_" + name + ".py"), "w") as fh:
+            fh.write(src)
+        open(os.path.join(d, "c3e_fixed.py"), "w").close()
+        wk = pipeline.WorkerProc("real")
+        try:
+            wk.call(cmd="store", kind="memory", internal_dir=d + "/i", data_dir=d + "/d")
+            wk.call(cmd="world", dir=d, module="c3pin_" + name, extmod="c3e_fixed")
+            r = wk.call(cmd="run", entry={"kind": "eval", "fun": "f0"})
+            assert r["error"] is None, r["error"]
+            json.dump({"source": src, "signatures": r["paths"],
+                       "note": "pinned from the implementation at repository state %s" % os.popen("git -C /repo log -1 --format=%h").read().strip()},
+                      open(os.path.join(CORPUS, name + ".json"), "w"), indent=1, sort_keys=True)
+        finally:
+            wk.close()
